@@ -47,7 +47,7 @@ def impl_split_keep(s_inj, d, D0, D2, thr, minb, maxb, mode, dyn, dist="right"):
         T.robust_svd = real
 
 
-def impl_tss_keep(s_inj, d, L, R, thr, maxb):
+def impl_tss_keep(s_inj, d, L, R, thr, maxb, minb=2):
     import mqt.yaqs.core.methods.decompositions as D
 
     rng = np.random.default_rng(len(s_inj) * 11 + L)
@@ -55,7 +55,7 @@ def impl_tss_keep(s_inj, d, L, R, thr, maxb):
     b = rng.normal(size=(d, 3, R)) + 0j
     real, _ = inject(D, s_inj)
     try:
-        an, bn = D.two_site_svd(a, b, thr, maxb)
+        an, bn = D.two_site_svd(a, b, thr, maxb, minb)
         return int(an.shape[2])
     except Exception as e:  # noqa: BLE001
         return f"EXC:{type(e).__name__}"
@@ -75,9 +75,9 @@ def model_rel(s, thr, minb, maxb):
     return f"keep_rel FN {g_spec(s)} {g_float(thr)} {g_nat(minb)} {g_nat(maxb)}"
 
 
-def model_tss(s, thr, maxb):
+def model_tss(s, thr, maxb, minb=2):
     mb = "None" if maxb is None else f"(Some {g_nat(maxb)})"
-    return f"keep_tss FN {g_spec(s)} {g_float(thr)} {mb}"
+    return f"keep_tss FN {g_spec(s)} {g_float(thr)} {g_nat(minb)} {mb}"
 
 
 def spectrum(rng, k, kind):
